@@ -179,7 +179,7 @@ impl Acc {
 
 /// Turns fault requests (kind, fraction) into concrete faults using the invocation counts of
 /// the fault-free run.
-pub fn concrete_faults(freq: &[FaultReq], counts: &[u32; 5]) -> Vec<Fault> {
+pub fn concrete_faults(freq: &[FaultReq], counts: &[u32; NKINDS]) -> Vec<Fault> {
     let mut v: Vec<Fault> = Vec::new();
     for (k, frac) in freq {
         let n = counts[k.idx()];
